@@ -129,6 +129,8 @@ def ident_texts(w):
     yield f'@string{{{w} = "x"}}\n@a{{k, f = {w}, {w} = f}}'
     yield f"@a{{k0, t = 1}}\n@{w}{{"
     yield f"@{w}{{k, a b}}\n@{w}{{k, a = 1, a = 2}}\n@{w}{{k}}"
+    # keys, string names and field keys that differ only in letter case, and the same twice
+    yield f"@a{{{w}, f = 1}}\n@a{{{w.swapcase()}, F = 2, f = 3}}\n@string{{{w} = 1}}\n@string{{{w.swapcase()} = 2}}\n@a{{{w}, f = {w.swapcase()}}}"
 
 
 def _workflows():
